@@ -107,13 +107,13 @@ def sync_table_rule(prog, res):
 
     def run(env):
         model = {A[k]: v for k, v in env.items()}
-        events, end, undec = a7.walk(f, model)
-        ev = a7.Evaluator(f, dict(model))
+        st = {'record_calls': True}
+        events, end, undec = a7.walk(f, model, state=st)
         acts = []
-        for nid in events:
+        for nid, vals in st.get('calls', []):
             n = f.nodes[nid]
             if n['k'] == 'CXXMemberCallExpr' and n['callee'].get('classq') == 'ezc3d::Header' and not n['callee'].get('const') and n['callee']['nparams'] == 1:
-                acts.append((n['callee']['name'], ev.ev(n['args'][0])))
+                acts.append((n['callee']['name'], vals[0] if vals else None))
         return acts, end, undec
     rows = []
     # (row name, varying atoms, expectation(env) -> list of required (setter, value))
@@ -297,6 +297,35 @@ def derived_rule(prog, res, rule='derived'):
     reads = [n for n in sub.calls() if n['callee']['usr'] == getter.usr]
     writes = [n for n in sub.calls() if n['callee']['usr'] == setter.usr]
     direct = [n for n in sub.all_nodes({'BinaryOperator'}) if n['op'] == '=' and R.render(n['ch'][0]) == 'this._nbAnalogsMeasurement']
+    GETTER_FORMS = ('((this._nbAnalogByFrame != 0) ? (this._nbAnalogsMeasurement / this._nbAnalogByFrame) : 0)',
+                    '((this._nbAnalogByFrame == 0) ? 0 : (this._nbAnalogsMeasurement / this._nbAnalogByFrame))',
+                    '((this._nbAnalogByFrame > 0) ? (this._nbAnalogsMeasurement / this._nbAnalogByFrame) : 0)')
+    from paths import local_init as _li
+    # a local initialised (before the store) with the getter's value, spelled as a call or inline
+    saved_locals = {}
+    for dn in sub.all_nodes({'DeclStmt'}):
+        for d in dn['decls']:
+            if 'init' in d:
+                txt = re.sub(r'\(unsigned long\)', '', R.render(d['init']))
+                is_get = any(r_['id'] in sub.descendants(d['init']) for r_ in reads) and sub.nodes[sub.strip(d['init'], 'all')]['id'] in [r_['id'] for r_ in reads]
+                if is_get or txt in GETTER_FORMS:
+                    saved_locals[d['id']] = dn['id']
+    if len(store) == 1 and not reads and saved_locals and len(direct) == 1:
+        sv = g.vertex_of.get(store[0]['id'])
+        wv = g.vertex_of.get(direct[0]['id'])
+        rhs = sub.nodes[sub.strip(direct[0]['ch'][1], 'all')]
+        good = False
+        if rhs['k'] == 'BinaryOperator' and rhs['op'] == '*':
+            sides = [sub.nodes[sub.strip(c, 'all')] for c in rhs['ch']]
+            rr = [R.render(c) for c in rhs['ch']]
+            for a_, other in ((sides[0], rr[1]), (sides[1], rr[0])):
+                if a_['k'] == 'DeclRefExpr' and a_['decl'].get('id') in saved_locals and other in ('this._nbAnalogByFrame', 'arg0'):
+                    dv = g.vertex_of.get(saved_locals[a_['decl']['id']])
+                    good = None not in (sv, wv, dv) and g.dominates(dv, sv) and g.dominates(sv, wv) and g.NEXIT not in g.reach([sv], avoid={wv})
+        if good:
+            res.ok(rule, 'Header::nbAnalogByFrame(n) keeps the channel count (rescales the measurements per frame)', sub.loc(),
+                   'channel count computed before the store (inline) and multiplied by the new sub-frame count after it', function=sub.sig, expr='subframe-setter')
+            return
     ok = len(store) == 1 and len(reads) >= 1 and (len(writes) == 1 or len(direct) == 1)
     if ok and not writes:
         # the setter inlined:  _nbAnalogsMeasurement = saved * _nbAnalogByFrame  after the store
@@ -329,6 +358,11 @@ def derived_rule(prog, res, rule='derived'):
     if ok:
         res.ok(rule, 'Header::nbAnalogByFrame(n) keeps the channel count (rescales the measurements per frame)', sub.loc(), 'count read before the store and re-applied after it',
                function=sub.sig, expr='subframe-setter')
+    elif len(store) == 1 and (writes or direct):
+        # something re-computes the measurements after the store, in a form the rule does not read
+        res.undecided(rule, 'Header::nbAnalogByFrame(n) keeps the channel count (rescales the measurements per frame)', sub.loc(),
+                      'the measurements per frame are re-computed in a form the rule does not read (expected: channel count saved before the store, times the new sub-frame count after it)',
+                      function=sub.sig, expr='subframe-setter')
     else:
         res.viol(rule, 'Header::nbAnalogByFrame(n) keeps the channel count (rescales the measurements per frame)', sub.loc(),
                  'changing the sub-frame count must rescale the analog measurements per frame (channels x sub-frames): read nbAnalogs() before the store, store, then nbAnalogs(saved)',
